@@ -1,7 +1,10 @@
 """C03 - format literals are interpreted exactly as std::fmt interprets them.
 
-proofs : coq/theories/C03 (dm parser model == std parser model on every std-accepted string, ...)
+proofs : coq/theories/C03 (dm parser model == std parser model on every std-accepted string, every derivation of the
+         std::fmt grammar read back by both, closed form of the implicit counter, transparent_call sound and exact, ...)
 tie 1  : Coq model of impl/src/fmt/parsing.rs + Placeholder::parse_fmt_string  vs  the real functions
+tie 1b : every grammar function / combinator of fmt/parsing.rs on arbitrary inputs, and the literal side of
+         FmtAttribute::transparent_call, model vs code (run_sub_ties)
 tie 2  : Coq model of rustc_parse_format                                         vs  the real rustc parser
 oracle : real derive_more parser vs real rustc parser on the same literal (independent of the models)
 """
@@ -13,8 +16,11 @@ from lib.common import coq_str, py_str
 
 TRUSTED = [
     "Coq 8.16.1 kernel + vm_compute (coqc full .vo build); no axioms (Print Assumptions: closed)",
-    "hand-written Gallina models coq/theories/C03/{DmParse,StdParse}.v, tied to the code by differential runs "
-    "(cases.v + vm_compute vs in-process harness / rustc_parse_format)",
+    "hand-written Gallina models coq/theories/C03/{DmParse,DmGeneric,Transparent,Utf8,StdParse}.v, tied to the code by "
+    "differential runs (cases.v + vm_compute vs in-process harness / rustc_parse_format): whole literals, every grammar "
+    "function and combinator of fmt/parsing.rs on arbitrary remaining inputs (harness/inproc appends a child module to a "
+    "verbatim copy of the source so that its private functions are callable), byte offsets, transparent_call; "
+    "Render.v (the std::fmt grammar as a generator) is specification, not model of code",
     "tools/lib/gen_xid.py (T-gen of the Unicode tables), tools/props/c03.py (generators, canonicalisers)",
     "nightly rustc_parse_format as the std-side oracle; syn::LitStr::value() unescaping; usize::from_str",
 ]
@@ -304,6 +310,88 @@ def unicode_ident_literals(rng, d_start, d_cont, n):
     return out
 
 
+def derivations(rng, d_start, d_cont, d_ws, avoid, n):
+    """random derivations of the std::fmt grammar with unbounded components, the shape of the abstract syntax of
+    coq/theories/C03/Render.v: ANY scalar value as fill (braces and alignment characters included), numerals of any
+    length with leading zeros (value within u16), identifiers over the real XID tables, white space from the real
+    White_Space table, every flag / width form / precision form / type, and sequences with text and escapes"""
+    starts = sorted(c for c in d_start if c not in avoid)
+    conts = sorted(c for c in d_cont if c not in avoid)
+    wss = sorted(d_ws)
+    specials = [ord(c) for c in "{}<^>+-#0.$*?:x_ "]
+
+    def scalar():
+        r = rng.random()
+        if r < 0.35:
+            return rng.choice(specials)
+        if r < 0.6:
+            return rng.randrange(0x20, 0x7f)
+        while True:
+            c = rng.randrange(0x80, 0x110000)
+            if not 0xD800 <= c <= 0xDFFF and c not in avoid:
+                return c
+
+    def ident():
+        if rng.random() < 0.15:
+            return "_" + "".join(chr(rng.choice(conts)) for _ in range(rng.randrange(1, 4)))
+        pool = starts if rng.random() < 0.5 else [c for c in range(0x41, 0x7b) if chr(c).isalpha()]
+        return chr(rng.choice(pool)) + "".join(chr(rng.choice(conts if rng.random() < 0.5 else [0x61, 0x31, 0x5f]))
+                                               for _ in range(rng.randrange(0, 4)))
+
+    def numeral(nonzero_head=False):
+        v = rng.choice([0, 1, 7, 10, 42, 255, 65535, rng.randrange(0, 65536)])
+        ds = str(v)
+        if not nonzero_head and rng.random() < 0.3:
+            ds = "0" * rng.randrange(1, 4) + ds
+        if nonzero_head and ds[0] == "0":
+            ds = "1" + ds
+        return ds
+
+    def ws():
+        return "".join(chr(rng.choice(wss)) for _ in range(rng.randrange(0, 3))) if rng.random() < 0.35 else ""
+
+    def count(after_zero_flag):
+        r = rng.random()
+        if r < 0.35:
+            return numeral(not after_zero_flag)
+        if r < 0.6:
+            return (numeral(not after_zero_flag) if rng.random() < 0.8 else "0") + "$"
+        return ident() + "$"
+
+    def placeholder():
+        arg = rng.choice(["", "", numeral(), ident()])
+        out = "{" + arg + ws()
+        if rng.random() < 0.85:
+            out += ":"
+            r = rng.random()
+            if r < 0.45:
+                out += chr(scalar()) + rng.choice("<^>")
+            elif r < 0.6:
+                out += rng.choice("<^>")
+            out += rng.choice(["", "", "+", "-"]) + rng.choice(["", "#"])
+            zero = rng.random() < 0.3
+            out += "0" if zero else ""
+            if rng.random() < 0.5:
+                out += count(zero)
+            if rng.random() < 0.5:
+                out += "." + ("*" if rng.random() < 0.3 else (numeral() if rng.random() < 0.5 else count(True)))
+            out += rng.choice(TYPES)
+        return out + ws() + "}"
+
+    res = []
+    for _ in range(n):
+        parts = []
+        for _ in range(rng.choice([1, 1, 1, 2, 3])):
+            r = rng.random()
+            if r < 0.2:
+                parts.append(rng.choice(["{{", "}}", "a", "é", " ", "<"]))
+            parts.append(placeholder())
+            if rng.random() < 0.2:
+                parts.append(rng.choice(["{{", "}}", "b", "x ", ">"]))
+        res.append("".join(parts))
+    return res
+
+
 def short_strings(maxlen, alphabet):
     for n in range(0, maxlen + 1):
         for t in itertools.product(alphabet, repeat=n):
@@ -343,6 +431,319 @@ def without_empty_dots(l):
     return _EMPTY_DOT.sub("", l)
 
 
+# ------------------------------------------------------------------ sub-parser / combinator / transparent_call ties
+
+SUB_FNS = ["identifier", "integer", "argument", "parameter", "count", "precision", "type_", "align", "sign",
+           "format_spec", "format", "maybe_format", "text", "any_char", "take_any_char"]
+# the Gallina expression of each (I = the input); the last three are the general (fuelled) transcriptions
+SUB_COQ = ["bl (identifier unicode_cc I)", "bl (integer I)", "bl (argument unicode_cc I)", "bl (parameter unicode_cc I)",
+           "bl (count unicode_cc I)", "bl (precision unicode_cc I)", "bl (type_ unicode_cc I)", "bl (align_p I)",
+           "bl (sign_p I)", "bl (format_spec unicode_cc I)", "bl (format_p unicode_cc I)", "bl (maybe_format unicode_cc I)",
+           "bl (text I)", "blu (any_char I)", "bl (take_any_char I)",
+           "bl (identifier_g unicode_cc F I)", "bl (integer_g F I)", "bl (text_g F I)"]
+SUB_PREAMBLE = ("Definition bl {A} (r : option (str * A)) : option (nat * A) := "
+                "match r with Some (rest, v) => Some (blen rest, v) | None => None end.\n"
+                "Definition blu (r : option str) : option nat := match r with Some rest => Some (blen rest) | None => None end.\n")
+SUB_EXTRA = ["", "_", "_a", "__", "é", "0$", "00", "007$x", "18446744073709551616", "18446744073709551615x", "x?", "X?}",
+             "?", "? }", " }", "\t}", ".*", ".", "<", "🦀<", "}<", "}}", "{{", "{}", "a{", "{:}<", "{:}>}", "{:{<}", "r#a}",
+             "e}", "e }", "ee}", "o$", "_$", "_1$", "1$", "$", "+", "-x", "#", "0", "0}", "00$}", "0$}", "a.b", "é1_}"]
+
+
+def sub_model(k, t):
+    """Coq result of the k-th expression of SUB_COQ -> None | (rest_len, value)"""
+    t = opt(t)
+    if t is None:
+        return None
+    if k == 13:                     # any_char: only the rest
+        return (t, None)
+    n, v = t
+    name = SUB_FNS[k] if k < len(SUB_FNS) else ["identifier", "integer", "text"][k - len(SUB_FNS)]
+    if name in ("identifier", "text"):
+        v = py_str(v)
+    elif name in ("argument", "parameter"):
+        v = c_arg(v)
+    elif name == "count":
+        v = c_cnt(v)
+    elif name == "precision":
+        v = "star" if v == "PStar" else ("count", c_cnt(v[1]))
+    elif name in ("align", "sign"):
+        v = v[1:]
+    elif name == "format_spec":
+        v = c_spec(v)
+    elif name == "format":
+        v = c_format(v)
+    elif name == "maybe_format":
+        v = None if v == "None" else c_format(v[1])
+    return (n, v)
+
+
+def sub_real(name, r):
+    """real result of `fmt_sub` -> None | (rest_len, value) | "missing" """
+    if r.get("missing"):
+        return "missing"
+    if r.get("none"):
+        return None
+    n, v = r["rest_len"], r.get("value")
+    if name == "integer":
+        v = int(v)
+    elif name in ("argument", "parameter"):
+        v = r_arg(v)
+    elif name == "count":
+        v = r_cnt(v)
+    elif name == "precision":
+        v = "star" if v == "star" else ("count", r_cnt(v["count"]))
+    elif name == "type_":
+        v = TY_DM[v]
+    elif name == "format_spec":
+        v = r_spec(v)
+    elif name == "format":
+        v = r_format(v)
+    elif name == "maybe_format":
+        v = None if v is None else r_format(v)
+    return (n, v)
+
+
+COMBS = ["str", "one_of", "char", "check_char_in", "lookahead_one_of", "try_seq_chars", "take_while0_str",
+         "take_while0_one_of", "take_while1_one_of", "take_while1_str", "take_until1_any_one_of", "take_until1_char_char"]
+COMB_ALPHA = list("ab{}:") + ["é", "🦀"]
+
+
+def comb_coq(name, s, i):
+    S, I, F = coq_str(s), coq_str(i), len(i) + 1
+    c1, c2 = ord(s[0]), ord(s[1])
+    return {
+        "str": "blu (p_str %s %s)" % (S, I),
+        "one_of": "blu (one_of %s %s)" % (S, I),
+        "char": "blu (p_char %d %s)" % (c1, I),
+        "check_char_in": "blu (check_char (fun c => existsb (N.eqb c) %s) %s)" % (S, I),
+        "lookahead_one_of": "blu (lookahead (one_of %s) %s)" % (S, I),
+        "try_seq_chars": "blu (try_seq [p_char %d; p_char %d] %s)" % (c1, c2, I),
+        "take_while0_str": "bl (Some (take_while0_g (p_str %s) %d %s))" % (S, F, I),
+        "take_while0_one_of": "bl (Some (take_while0_g (one_of %s) %d %s))" % (S, F, I),
+        "take_while1_one_of": "bl (take_while1_g (one_of %s) %d %s)" % (S, F, I),
+        "take_while1_str": "bl (take_while1_g (p_str %s) %d %s)" % (S, F, I),
+        "take_until1_any_one_of": "bl (take_until1_g any_char (one_of %s) %d %s)" % (S, F, I),
+        "take_until1_char_char": "bl (take_until1_g (p_char %d) (p_char %d) %d %s)" % (c1, c2, F, I),
+    }[name]
+
+
+def run_sub_ties(chk, rng, inproc, tie_lits, tier, bare, bres, rej, raw_tr, only=None):
+    """ties of the model with the code below the level of whole literals: every grammar function of fmt/parsing.rs on
+    arbitrary remaining inputs (byte offsets included), the looping combinators at instances the grammar does not use,
+    and the literal side of transparent_call.  One batch of real calls, one batch of model evaluations."""
+    quick = tier == "quick"
+    if only is not None:
+        # replay of one recorded case of these ties
+        return _sub_ties(chk, inproc, only.get("inputs", []), only.get("cases", []), only.get("tcases", []))
+    # (a) inputs of the grammar functions: suffixes of the tie literals + hand-picked ones
+    inputs = list(SUB_EXTRA)
+    pool = [l for l in tie_lits if l]
+    for _ in range(900 if quick else 12000):
+        l = rng.choice(pool)
+        inputs.append(l[rng.randrange(len(l) + 1):])
+    inputs = list(dict.fromkeys(inputs))
+    # (b) combinator instances
+    cases = []
+    for _ in range(450 if quick else 6000):
+        name = rng.choice(COMBS)
+        s = "".join(rng.choice(COMB_ALPHA) for _ in range(rng.randrange(2, 4)))
+        if rng.random() < 0.7:
+            i = "".join(rng.choice(list(s) + COMB_ALPHA[:3]) for _ in range(rng.randrange(0, 7)))
+        else:
+            i = "".join(rng.choice(COMB_ALPHA) for _ in range(rng.randrange(0, 6)))
+        cases.append((name, s, i))
+    cases = list(dict.fromkeys(cases))
+    # (c) transparent_call: bare std-accepted placeholders (three argument shapes) and std-rejected literals (two)
+    tcases = []
+    kb = list(range(len(bare)))
+    for k in rng.sample(kb, min(len(kb), 500 if quick else 8000)):
+        tcases.append((bare[k], [bres[3 * k], bres[3 * k + 1], bres[3 * k + 2]]))
+    for l in rng.sample(rej, min(len(rej), 250 if quick else 4000)):
+        if l in raw_tr:
+            tcases.append((l, [raw_tr[l][0], raw_tr[l][1], None]))
+    return _sub_ties(chk, inproc, inputs, cases, tcases)
+
+
+def _sub_ties(chk, inproc, inputs, cases, tcases):
+    reqs = [{"cmd": "fmt_sub", "fn": fn, "input": i} for i in inputs for fn in SUB_FNS]
+    n_sub_req = len(reqs)
+    reqs += [{"cmd": "fmt_comb", "comb": n, "s": s, "input": i} for (n, s, i) in cases]
+    allreal = common.run_jsonl(inproc, reqs)
+    real, creal = allreal[:n_sub_req], allreal[n_sub_req:]
+
+    exprs = ["(" + ", ".join(e.replace("I", coq_str(i)).replace("F", str(len(i) + 1)) for e in SUB_COQ) + ")" for i in inputs]
+    exprs += [comb_coq(n, s, i) for (n, s, i) in cases]
+    exprs += ["(transparent_lit unicode_cc %s [], transparent_lit unicode_cc %s [None], transparent_lit unicode_cc %s [Some %s])" %
+              (coq_str(l), coq_str(l), coq_str(l), coq_str("zq")) for (l, _) in tcases]
+    mods = ["Verif.C03.DmParse", "Verif.C03.DmGeneric", "Verif.C03.Utf8", "Verif.C03.Transparent", "Verif.Gen.XidTable"]
+    allterms = common.coq_eval(mods, exprs, preamble=SUB_PREAMBLE, batch=120, tag="c03sub")
+    terms = allterms[:len(inputs)]
+    cterms = allterms[len(inputs):len(inputs) + len(cases)]
+    tterms = allterms[len(inputs) + len(cases):]
+
+    n_sub = 0
+    missing = set()
+    for a, (i, t) in enumerate(zip(inputs, terms)):
+        for k, fn in enumerate(SUB_FNS):
+            r = real[a * len(SUB_FNS) + k]
+            if "panic" in r or "crash" in r:
+                chk.violation("dm-parser-panic", {"function": fn, "input": i, "dm": r},
+                              "fmt/parsing.rs::%s fails internally on %r" % (fn, i))
+                continue
+            rr = sub_real(fn, r)
+            if rr == "missing":
+                missing.add(fn)
+                continue
+            m = sub_model(k, t[k])
+            if fn == "any_char" and rr is not None:
+                rr = (rr[0], None)
+            n_sub += 1
+            if m != rr:
+                chk.violation("tie-dm-subparser", {"function": fn, "input": i, "model": m, "code": rr},
+                              "Coq model of fmt/parsing.rs::%s disagrees with the code on the input %r" % (fn, i))
+        # the general (fuelled) transcriptions must give what the specialised ones give
+        for k2, k in ((len(SUB_FNS), 0), (len(SUB_FNS) + 1, 1), (len(SUB_FNS) + 2, 12)):
+            if sub_model(k2, t[k2]) != sub_model(k, t[k]):
+                chk.violation("tie-dm-subparser", {"function": SUB_FNS[k] + "_g", "input": i},
+                              "general transcription of %s differs from the specialised model on %r" % (SUB_FNS[k], i))
+    if missing:
+        chk.violation("tie-dm-subparser", {"missing_functions": sorted(missing)},
+                      "grammar functions of fmt/parsing.rs that the model mirrors no longer exist: %s" % sorted(missing),
+                      no_input=True)
+    chk.cov["subparser_results_compared"] = n_sub
+
+    n_comb = 0
+    cmissing = set()
+    for (name, s, i), r, t in zip(cases, creal, cterms):
+        if "panic" in r or "crash" in r:
+            chk.violation("dm-parser-panic", {"combinator": name, "s": s, "input": i, "dm": r},
+                          "fmt/parsing.rs combinator %s fails internally on %r" % (name, i))
+            continue
+        if r.get("missing"):
+            cmissing.add(name)
+            continue
+        rr = None if r.get("none") else (r["rest_len"], r.get("value"))
+        m = opt(t)
+        if m is not None:
+            m = (m[0], py_str(m[1])) if isinstance(m, tuple) else (m, None)
+        n_comb += 1
+        if m != rr:
+            chk.violation("tie-dm-combinator", {"combinator": name, "s": s, "input": i, "model": m, "code": rr},
+                          "Coq model of the combinator %s (parameter %r) disagrees with the code on %r" % (name, s, i))
+    if cmissing:
+        chk.violation("tie-dm-combinator", {"missing": sorted(cmissing)},
+                      "combinators of fmt/parsing.rs that the model mirrors no longer exist: %s" % sorted(cmissing), no_input=True)
+    chk.cov["combinator_results_compared"] = n_comb
+
+    n_t = 0
+    for (l, rs), t in zip(tcases, tterms):
+        for j, shape in enumerate(["no argument", "one positional argument", "one aliased argument `zq = ..`"]):
+            r = rs[j]
+            if r is None or "err" in r or "panic" in r or "crash" in r or "lex_error" in r:
+                continue
+            got = r.get("transparent")
+            got = None if not got else (got["expr"], got["trait"])
+            m = opt(t[j])
+            if m is not None:
+                sel, tr = m
+                m = ("field" if sel == "TSArg0" else py_str(sel[1]), TRAIT_COQ[tr])
+            n_t += 1
+            if m != got:
+                chk.violation("tie-dm-transparent", {"literal": l, "arguments": shape, "model": m, "code": got},
+                              "Coq model of transparent_call (literal side) disagrees with the code on %r with %s" % (l, shape))
+    chk.cov["transparent_call_results_compared"] = n_t
+
+
+# ------------------------------------------------------------------ enum-level literals that no variant uses
+
+DISPLAY_LIKE = [("Display", "display"), ("Binary", "binary"), ("Octal", "octal"), ("LowerHex", "lower_hex"),
+                ("UpperHex", "upper_hex"), ("LowerExp", "lower_exp"), ("UpperExp", "upper_exp"), ("Pointer", "pointer")]
+
+
+def enum_level_items(attr, attr_src):
+    """(kind, item): the attribute body as the enum-level attribute; in the first two every variant has a format of its own
+    (the enum-level one is then only an unused default), in the control one variant has none (the literal reaches write!)"""
+    return [("all-own-1", '#[%s(%s)] enum E { #[%s("a")] A }' % (attr, attr_src, attr)),
+            ("all-own-2", '#[%s(%s)] enum E { #[%s("a")] A, #[%s("b{_0}")] B(i32) }' % (attr, attr_src, attr, attr)),
+            ("control", '#[%s(%s)] enum E { #[%s("a")] A, B(i32) }' % (attr, attr_src, attr))]
+
+
+# std-ACCEPTED enum-level attributes (literal, argument source, (alias, expr.ident()) per argument): only for the tie of
+# SharedLit.v (wrapping via `_variant`, delegation, aliases, positions) - they are no oracle cases
+SHARED_TIE = [("{_variant}", "", []), ("{_variant:?}", "", []), ("<{_variant}>", "", []), ("{}", "", []), ("{_0}", "", []),
+              ("text", "", []), ("{_variant:x}", "", []), ("{_variant:>5}", "", []), ("{_variant} {_variant}", "", []), ("{0}", "", []),
+              ("{v}", ", v = _variant", [("v", "_variant")]), ("{}", ", _variant", [(None, "_variant")]),
+              ("{0}", ", _variant", [(None, "_variant")]), ("{0}", ", v = _variant", [("v", "_variant")]),
+              ("{v:?}", ", v = _variant.len()", [("v", None)]), ("{v} {w}", ", v = _0, w = _variant", [("v", "_0"), ("w", "_variant")]),
+              ("{1}", ", _0, _variant", [(None, "_0"), (None, "_variant")]), ("{x}", ", y = _variant", [("y", "_variant")])]
+TIE_TRAITS = {"Display": "TrDisplay", "LowerHex": "TrLowerHex"}
+
+
+def coq_opt_str(x):
+    return "None" if x is None else "(Some %s)" % coq_str(x)
+
+
+def run_enum_level(chk, inproc, rejected):
+    """oracle, real expander: a std-rejected literal placed as the enum-level format.  Where every variant has its own
+    format the expansion must not succeed without the literal in it (it would never reach format_args!: silently
+    accepted).  Control: with a variant that has no format of its own the literal is in the expansion (rustc rejects it).
+    Tie: SharedLit.v predicts for every item whether the literal is in the expansion."""
+    cases = [(l, "", [], True) for l in rejected] + [(l, a, sl, False) for (l, a, sl) in SHARED_TIE]
+    reqs, meta = [], []
+    for ci, (l, args_src, sl, is_oracle) in enumerate(cases):
+        src = rust_lit(l)
+        for (derive, attr) in DISPLAY_LIKE:
+            if not is_oracle and derive not in TIE_TRAITS:
+                continue
+            for (kind, item) in enum_level_items(attr, src + args_src):
+                reqs.append({"cmd": "expand", "derive": derive, "item": item, "summary": False})
+                meta.append((ci, src, derive, kind, item))
+    res = common.run_jsonl(inproc, reqs)
+    # model: (reaches own, reaches not-own) per case and tie trait
+    exprs = []
+    for (l, args_src, sl, _) in cases:
+        a = "{| sl_lit := %s; sl_args := [%s] |}" % (coq_str(l), "; ".join("(%s, %s)" % (coq_opt_str(x), coq_opt_str(y)) for (x, y) in sl))
+        exprs.append("[" + "; ".join("(shared_literal_reaches unicode_cc (Some %s) %s true, shared_literal_reaches unicode_cc (Some %s) %s false)" %
+                                     (a, t, a, t) for t in TIE_TRAITS.values()) + "]")
+    terms = common.coq_eval(["Verif.C03.SharedLit", "Verif.Gen.XidTable"], exprs, batch=120, tag="c03shared")
+    n_checked = n_diag = n_ctrl_reaches = n_ctrl_other = n_tie = 0
+    for (ci, src, derive, kind, item), r in zip(meta, res):
+        l, args_src, sl, is_oracle = cases[ci]
+        if "crash" in r or "item_unparsable" in r or "bad_request" in r or "panic" in r:
+            continue
+        ok = r.get("ok")
+        present = isinstance(ok, str) and src in ok
+        if derive in TIE_TRAITS and isinstance(ok, str):
+            own, notown = terms[ci][list(TIE_TRAITS).index(derive)]
+            want = (own == "true") if kind != "control" else (own == "true" or notown == "true")
+            n_tie += 1
+            if want != present:
+                chk.violation("tie-dm-shared-literal", {"derive": derive, "item": item, "model_says_literal_in_expansion": want,
+                                                        "expansion": ok[:600]},
+                              "SharedLit.v (shared_attr_info / generate_body) disagrees with the expansion of `#[derive(%s)] %s`" % (derive, item))
+        if not is_oracle:
+            continue
+        if kind == "control":
+            if present:
+                n_ctrl_reaches += 1
+            else:
+                n_ctrl_other += 1          # a diagnostic of the expander itself: not silent either
+            continue
+        n_checked += 1
+        if not isinstance(ok, str):
+            n_diag += 1
+            continue
+        if not present:
+            chk.violation("unused-enum-level-literal", {"derive": derive, "item": item, "literal": l, "expansion": ok[:600]},
+                          "std rejects the literal %r but `#[derive(%s)] %s` expands without it: it never reaches format_args!" % (
+                              l, derive, item))
+    chk.bump("enum_level_items_all_variants_own_format", n_checked)
+    chk.bump("enum_level_items_rejected_by_expander", n_diag)
+    chk.bump("enum_level_control_literal_reaches_write", n_ctrl_reaches)
+    chk.bump("enum_level_control_other_outcome", n_ctrl_other)
+    chk.cov["shared_literal_flow_results_compared"] = n_tie
+
+
 # ------------------------------------------------------------------ the check
 
 def run(tier, seed, replay):
@@ -367,8 +768,22 @@ def run(tier, seed, replay):
     st = common.check_proofs(chk, "C03", extra_dirs=("Gen",))
 
     # ---- literals
+    sub_only = None
+    enum_replay = None
     if replay:
-        lits = [json.load(open(replay))["replay"]["literal"]]
+        robj = json.load(open(replay))["replay"]
+        if "item" in robj and "derive" in robj:     # an enum-level literal no variant uses
+            enum_replay = robj
+            robj = {}
+        if "function" in robj:                      # a grammar function on one input
+            sub_only = {"inputs": [robj["input"]]}
+        elif "combinator" in robj:                  # a combinator instance
+            sub_only = {"cases": [(robj["combinator"], robj["s"], robj["input"])]}
+        elif "arguments" in robj and "model" in robj:   # transparent_call, model vs code
+            l = robj["literal"]
+            rs = common.run_jsonl(inproc, [{"cmd": "fmt_attr", "tokens": rust_lit(l) + t} for t in ("", ", field", ", zq = field")])
+            sub_only = {"tcases": [(l, rs)]}
+        lits = [robj["literal"]] if "literal" in robj else []
         tie_lits = lits
     else:
         n_rand = 4000 if tier == "quick" else 60000
@@ -388,6 +803,9 @@ def run(tier, seed, replay):
         ui = unicode_ident_literals(rng, d_start, d_cont, 1500 if tier == "quick" else 20000)
         chk.bump("unicode_ident_literals", len(ui))
         lits += ui
+        dv = derivations(rng, d_start, d_cont, tabs["tables"][2], avoid, 3000 if tier == "quick" else 40000)
+        chk.bump("grammar_derivations_with_unbounded_components", len(dv))
+        lits += dv
         lits = [l for l in dict.fromkeys(lits) if not any(ord(c) in avoid for c in l)]
         # the model-vs-code ties run on a subset (Coq evaluation is the slow part)
         n_tie = 6000 if tier == "quick" else 60000
@@ -411,8 +829,10 @@ def run(tier, seed, replay):
         tr_reqs.append({"cmd": "fmt_attr", "tokens": rust_lit(l) + ", field"})
     tr = common.run_jsonl(inproc, tr_reqs)
     transparent = {}
+    raw_tr = {}
     for k, l in enumerate(rej):
         transparent[l] = [r.get("transparent") for r in (tr[2 * k], tr[2 * k + 1])]
+        raw_tr[l] = (tr[2 * k], tr[2 * k + 1])
     dotted = [l for l in lits if without_empty_dots(l) != l]
     dd = common.run_jsonl(inproc, [{"cmd": "fmt_parse", "lit": without_empty_dots(l)} for l in dotted])
     undotted = dict(zip(dotted, dd))
@@ -496,6 +916,20 @@ def run(tier, seed, replay):
     chk.bump("std_accepted", n_acc)
     chk.bump("std_rejected", len(lits) - n_acc)
 
+    # ---- oracle, second path by which a literal may never reach format_args!: an enum-level literal no variant uses
+    if replay and enum_replay is not None:
+        r = common.run_jsonl(inproc, [{"cmd": "expand", "derive": enum_replay["derive"], "item": enum_replay["item"], "summary": False}])[0]
+        src = rust_lit(enum_replay["literal"])
+        if isinstance(r.get("ok"), str) and src not in r["ok"]:
+            chk.violation("unused-enum-level-literal", enum_replay,
+                          "std rejects the literal %r but `#[derive(%s)] %s` expands without it" % (
+                              enum_replay["literal"], enum_replay["derive"], enum_replay["item"]))
+    elif not replay:
+        rej_corpus = [l for l in CORPUS if l in real and std_real(real[l][1]) is None]
+        pool_rej = [l for l in rej if l not in set(rej_corpus) and '"' not in l and "\\" not in l]
+        n_enum = 250 if tier == "quick" else 4000
+        run_enum_level(chk, inproc, rej_corpus + rng.sample(pool_rej, min(len(pool_rej), n_enum)))
+
     # ---- ties: models vs code, same literals
     exprs = ["(format_string unicode_cc %s, placeholders unicode_cc %s, std_parse unicode_cc %s, format_p unicode_cc %s)" %
              ((coq_str(l),) * 4) for l in tie_lits]
@@ -527,6 +961,14 @@ def run(tier, seed, replay):
         chk.sample({"literal": l, "derive_more": r_ph, "std": s if s is None else [x[0] for x in s]}, limit=10)
     chk.cov["traces_validated_against_impl"] = n_tie
 
+    # ---- ties below the level of whole literals (every grammar function, the combinators, transparent_call)
+    if not replay:
+        chk.log("literal-level ties done; sub-parser / combinator / transparent_call ties")
+        run_sub_ties(chk, rng, inproc, tie_lits, tier, bare, bres, rej, raw_tr)
+        chk.log("sub-level ties done")
+    elif sub_only is not None:
+        run_sub_ties(chk, rng, inproc, tie_lits, tier, bare, bres, rej, raw_tr, only=sub_only)
+
     extra_chk = {}
     if tier == "thorough" and not getattr(chk, "proof_broken", False):
         ok, ax, tail, skipped = common.coqchk_all()
@@ -548,7 +990,8 @@ def run(tier, seed, replay):
         proof=st,
         rule="literals: hand corpus + every derivation of a bounded std::fmt grammar (arg x ws x fill/align x sign x # x 0 x width "
              "x precision x 11 types x trailing ws) + grammar-random literals + one-edit neighbours + placeholder/text/escape "
-             "sequences + all strings of length <=3 (quick) / <=4 (thorough) over a 30-symbol alphabet with 2-,3-,4-byte chars; "
+             "sequences + random derivations with unbounded components (any scalar value as fill, numerals with leading zeros, "
+             "identifiers and white space from the real Unicode tables) + all strings of length <=3 (quick) / <=4 (thorough) over a 30-symbol alphabet with 2-,3-,4-byte chars; "
              "non-trivial = std accepts with >=1 placeholder, or the two parsers disagree on acceptance; distinct by literal",
         trusted=TRUSTED,
         extra={**extra_chk, "unicode_tables": {"xid_start": tabs["start"], "xid_continue": tabs["cont"], "white_space": tabs["ws"],
@@ -574,7 +1017,10 @@ META = {
     "technique": "Coq proof of parser equivalence (derive_more's fmt parser vs rustc_parse_format) + differential correspondence of both models with the real parsers",
     "text": "Theorems over all strings (unbounded) about executable Gallina models of impl/src/fmt/parsing.rs, "
             "Placeholder::parse_fmt_string and rustc_parse_format: every std-accepted literal yields the same placeholder "
-            "list (argument, trait, modifiers) in both; literals std rejects are never transparent. Both models are re-tied "
+            "list (argument, trait, modifiers) in both; every derivation of the std::fmt grammar (any fill, every flag, "
+            "width/precision form, type, white space, escapes, sequences) is read back as intended by both; the implicit "
+            "counter in closed form incl. `.*`; a delegation (transparent_call) happens only for literals std accepts as "
+            "exactly that placeholder; byte-level slicing never panics. Both models are re-tied "
             "to the real parsers on every run (cases.v/vm_compute vs in-process harness and nightly rustc_parse_format), "
             "and the real parsers are compared directly with each other on ~10^5 literals.",
     "note": "Trusted: Coq kernel/vm_compute; hand models tied by differential runs; nightly rustc_parse_format as std oracle; "
